@@ -110,7 +110,8 @@ def compatible_bms(name):
     if name == "StreamProbabilisticAL":
         return [None, "BalancedIncrementalQuantileFilter"]
     if name == "StreamDensityBasedAL":
-        return [None, "DensityBasedSplitBudgetManager"]
+        return [None, "DensityBasedSplitBudgetManager", "FixedUncertaintyBudgetManager", "VariableUncertaintyBudgetManager",
+                "RandomBudgetManager", "SplitBudgetManager"]
     if name == "CognitiveDualQueryStrategy":
         return [None] + ZLIOBAITE_BMS[1:]
     return [None] + ZLIOBAITE_BMS
